@@ -4773,6 +4773,9 @@ fn layout_section_parts<P: Platform>(
 
     let mut records_out = output_sections.new_part_map();
 
+    #[cfg(feature = "verif_hooks")]
+    let mut verif_trace: Vec<String> = Vec::new();
+
     for event in output_order {
         match event {
             OrderEvent::SetLocation(location) => {
@@ -4780,6 +4783,8 @@ fn layout_section_parts<P: Platform>(
             }
             OrderEvent::SegmentStart(segment_id) => {
                 if program_segments.is_load_segment(segment_id) {
+                    #[cfg(feature = "verif_hooks")]
+                    let verif_located = pending_location.map(|l| l.address);
                     let segment_alignment = segment_alignments
                         .get(&segment_id)
                         .copied()
@@ -4798,9 +4803,25 @@ fn layout_section_parts<P: Platform>(
                             &mut mem_offset,
                         );
                     }
+                    #[cfg(feature = "verif_hooks")]
+                    verif_trace.push(match verif_located {
+                        Some(address) => format!(
+                            "T {} {address} {file_offset} {mem_offset}",
+                            segment_alignment.value()
+                        ),
+                        None => format!(
+                            "S {} {file_offset} {mem_offset}",
+                            segment_alignment.value()
+                        ),
+                    });
                 }
             }
-            OrderEvent::SegmentEnd(_) => {}
+            OrderEvent::SegmentEnd(_segment_id) => {
+                #[cfg(feature = "verif_hooks")]
+                if program_segments.is_load_segment(_segment_id) {
+                    verif_trace.push("E".to_owned());
+                }
+            }
             OrderEvent::Section(section_id) => {
                 debug_assert!(
                     pending_location.is_none(),
@@ -4811,7 +4832,11 @@ fn layout_section_parts<P: Platform>(
                 let max_alignment = sizes.max_alignment(part_id_range.clone(), output_sections);
                 if let Some(location) = section_info.location {
                     mem_offset = location.address;
+                    #[cfg(feature = "verif_hooks")]
+                    verif_trace.push(format!("L {}", location.address));
                 }
+                #[cfg(feature = "verif_hooks")]
+                verif_trace.push(format!("N {}", output_sections.display_name(section_id)));
 
                 records_out[part_id_range.clone()]
                     .iter_mut()
@@ -4894,9 +4919,35 @@ fn layout_section_parts<P: Platform>(
                             file_offset += mem_size as usize;
                         }
                     });
+                #[cfg(feature = "verif_hooks")]
+                {
+                    let merge_target = output_sections.primary_output_section(section_id);
+                    let alloc = output_sections.section_flags(merge_target).is_alloc();
+                    let has_data = output_sections.has_data_in_file(merge_target);
+                    for rec in &records_out[section_id.part_id_range()] {
+                        verif_trace.push(format!(
+                            "P {} {} {} {} {} {} {}",
+                            rec.alignment.value(),
+                            rec.mem_size,
+                            rec.file_size,
+                            u8::from(alloc),
+                            u8::from(has_data),
+                            rec.file_offset,
+                            rec.mem_offset
+                        ));
+                    }
+                }
             }
         };
     }
+
+    #[cfg(feature = "verif_hooks")]
+    crate::verif_hooks::layout_trace(
+        args.loadable_segment_alignment().value(),
+        args.should_output_partial_object(),
+        output_sections.base_address,
+        &verif_trace,
+    );
 
     records_out
 }
